@@ -87,3 +87,26 @@ PROPS["C05"] = {
                    "the statement's success clauses; a pure lemma shows the automaton accepts exactly the well-bracketed sequences.",
     "assumptions": [],
 }
+
+PROPS["C12"] = {
+    "title": "Builder calls never panic, failed calls change nothing, structure is enforced",
+    "units": {"quick": ["builder_core"], "thorough": ["builder_core"]},
+    "level": "proof",
+    "technique": "Verus contracts on the extracted hand-written Builder methods over an abstract module view, with the selection invariant required and re-established by every method",
+    "design_ref": "DESIGN.md §4 C12+C13",
+    "explanation": "Every hand-written Builder method in C12's alphabet is extracted verbatim and proved, for all builder states satisfying "
+                   "the selection invariant, to re-establish it, to fail exactly under the stated condition, to leave the whole module view "
+                   "unchanged on failure and to perform exactly the stated update on success; every index/unwrap/expect/arithmetic site is an obligation.",
+    "assumptions": [],
+}
+PROPS["C13"] = {
+    "title": "Builder id discipline: fresh ids, exact bound, deduplicated implicit types",
+    "units": {"quick": ["builder_core"], "thorough": ["builder_core"]},
+    "level": "proof",
+    "technique": "Verus contracts on id(), new(), new_from_module(), module(), dedup_insert_type() (loop invariant) and the three-way type requests",
+    "design_ref": "DESIGN.md §4 C12+C13",
+    "explanation": "id() returns the old counter and advances it by one, every other method leaves it unchanged or advances it by the ids it hands out; "
+                   "module() writes the counter into the bound; dedup_insert_type returns the id of the first identical declaration (loop invariant over the real loop); "
+                   "type requests satisfy the three-way postcondition of the statement.",
+    "assumptions": [],
+}
